@@ -1,6 +1,6 @@
 (* MODELS: data *)
 (* Driver for the vnadata_t container model and the vnadata_convert model (C15, C05).
-   usage: drv_data [--as-found]  < script  > transcript
+   usage: drv_data [--as-found | --quirks d4,d5,d6,d40]  < script  > transcript
    Script: one operation per line (see harness/data_harness.c for the grammar, both programs read
    the same file).  Values are Gaussian integers "re,im".
    Transcript: per operation
@@ -57,12 +57,37 @@ let payload = function
   | PMeta (ft, fm, fp, dp) ->
     Printf.sprintf "m %s %s %s %s" (sz ft) (match fm with None -> "-1" | Some k -> sn k) (sz fp) (sz dp)
 
+(* number of allocated cells beyond the logical sizes that do not hold their initial value
+   (0 on every reachable state of the repaired model: DataProofs.inv_reachable) *)
+let junk vzero vdef d =
+  let o = observe d in
+  let freqs = int_of_nat o.ob_freqs and rows = int_of_nat o.ob_rows and cols = int_of_nat o.ob_cols in
+  let ports = max rows cols and cells = rows * cols in
+  let pa = int_of_nat (p_alloc d) and fa = int_of_nat (f_alloc d) and ma = int_of_nat (m_alloc d) in
+  let n = ref 0 in
+  for f = 0 to fa - 1 do
+    let nf = nat_of_int f in
+    if f >= freqs && int_of_z (d.fv nf) <> 0 then incr n;
+    for j = 0 to ma - 1 do
+      if (f >= freqs || j >= cells) && d.dat nf (nat_of_int j) <> vzero then incr n
+    done;
+    if per_f d then
+      for j = 0 to pa - 1 do
+        if (f >= freqs || j >= ports) && d.z0vv nf (nat_of_int j) <> vdef then incr n
+      done
+  done;
+  if not (per_f d) then
+    for j = ports to pa - 1 do
+      if d.z0v (nat_of_int j) <> vdef then incr n
+    done;
+  !n
+
 let digest i d =
   let o = observe d in
   let (((ft, fm), fp), dp) = o.ob_meta in
-  Printf.sprintf "D %d t %s %s %s %s A %s %s %s J 0 F %s M %s Z %d %s X %s %s %s %s"
+  Printf.sprintf "D %d t %s %s %s %s A %s %s %s J %d F %s M %s Z %d %s X %s %s %s %s"
     i (sz (vpt_code o.ob_ty)) (sn o.ob_rows) (sn o.ob_cols) (sn o.ob_freqs)
-    (sn (p_alloc d)) (sn (f_alloc d)) (sn (m_alloc d))
+    (sn (p_alloc d)) (sn (f_alloc d)) (sn (m_alloc d)) (junk (Lit (0, 0)) (Lit (50, 0)) d)
     (Stdlib.String.concat " " (List.map sz o.ob_fv))
     (Stdlib.String.concat " ; " (List.map svs o.ob_dat))
     (if o.ob_perf then 1 else 0)
@@ -70,7 +95,12 @@ let digest i d =
     (sz ft) (match fm with None -> "-1" | Some k -> sn k) (sz fp) (sz dp)
 
 let () =
-  let q = if Array.length Sys.argv > 1 && Sys.argv.(1) = "--as-found" then as_found else fixed in
+  let q =
+    if Array.length Sys.argv > 1 && Sys.argv.(1) = "--as-found" then as_found
+    else if Array.length Sys.argv > 2 && Sys.argv.(1) = "--quirks" then begin
+      let l = Stdlib.String.split_on_char ',' Sys.argv.(2) in
+      { q_d4 = List.mem "d4" l; q_d5 = List.mem "d5" l; q_d6 = List.mem "d6" l; q_d40 = List.mem "d40" l }
+    end else fixed in
   let vzero = Lit (0, 0) and vdef = Lit (50, 0) in
   let st = ref (minit vzero vdef) in
   let toks = ref [] in
@@ -86,7 +116,8 @@ let () =
       if !toks <> [] && (List.hd !toks).[0] <> '#' then begin
         let first = next () in
         let (mop, target) =
-          if first = "conv" then begin
+          if first = "reset" then (MReset, 0)
+          else if first = "conv" then begin
             let a = int_of_string (next ()) in let b = int_of_string (next ()) in
             let nt = zi () in
             (MConv (a = 1, b = 1, nt), b)
